@@ -70,10 +70,11 @@ def cmd_check(prop, tier):
     lines = []
     # 1. re-observe every listed known finding through its witness
     known_seen = []
-    for e in known:
-        if e.get("status") != "known":
-            continue
-        violated, det, res = confirm(name, e["witness"])
+    from concurrent.futures import ThreadPoolExecutor
+    kn = [e for e in known if e.get("status") == "known"]
+    with ThreadPoolExecutor(8) as ex:
+        kres = list(ex.map(lambda e: confirm(name, e["witness"]), kn))
+    for e, (violated, det, res) in zip(kn, kres):
         if not det:
             agg["errors"].append(f"known-finding witness not deterministic: {e['text']}")
         if violated:
